@@ -157,11 +157,11 @@ def gen_v2(rng):
     return unit, lines
 
 
-def render(unit, lines, tail_newline=True):
+def render(unit, lines, tail_newline=True, ch=" "):
     out = []
     for level, text in lines:
         parts = text.split("\n")
-        out.append(" " * (unit * level) + parts[0] if text else "")
+        out.append(ch * (unit * level) + parts[0] if text else "")
         out.extend(parts[1:])          # continuation lines inside brackets keep their own indentation
     return "\n".join(out) + ("\n" if tail_newline else "")
 
@@ -551,6 +551,8 @@ def lexdiff_case(P, content, codes):
                 return {"skip": "unclassifiable gap before lexing error"}
             return {"segs": segs + g + ["STab"], "complete": True, "lexerror": True, "parse_error": r["parse_error"]}
         return {"skip": "lexing error on content characters"}
+    if ierr == "Other:UnexpectedToken":
+        ierr = None      # the contextual lexer rejected a token on behalf of the parser: a parser stop, compare prefixes
     if ierr and ierr.startswith("Other:"):
         return {"skip": ierr}
     # the parser (or the indenter) stopped early: compare prefixes; a sentinel token ends the last _NEWLINE run
@@ -1069,7 +1071,12 @@ def run(tier, seed, replay=None):
         out.add_broken(br, b["log"])
     with C.BuildLock():
         okm, logm = C.coq_make(["theories/Svc/ParseWrapRun.vo", "theories/Svc/IndentRun.vo"])
-    if not okm:
+    if any(br.startswith("translator:") for br in b["broken"]):
+        # no constants for the current source: the models cannot be instantiated; the correspondences are
+        # skipped (the direct oracles below still run and look for a failing input)
+        okm = False
+        out.notes.append("model correspondences skipped: translator failed")
+    elif not okm:
         out.add_broken("coq:Svc/ParseWrapRun.v|IndentRun.v", logm)
 
     quick = tier == "quick"
@@ -1178,7 +1185,9 @@ def run(tier, seed, replay=None):
         progs = {"1.0": [], "2.x": []}
     for _ in range(n_gen):
         u, ls = gen_v2(rng)
-        progs["2.x"].append(("generated", render(u, ls, tail_newline=rng.random() < 0.8)))
+        tabbed = rng.random() < 0.12            # Colang 2.x also accepts tab indentation (a tab counts 8 columns)
+        progs["2.x"].append(("generated-tabs" if tabbed else "generated",
+                             render(1 if tabbed else u, ls, tail_newline=rng.random() < 0.8, ch="\t" if tabbed else " ")))
         u, ls = gen_v1(rng)
         progs["1.0"].append(("generated", render(u, ls, tail_newline=rng.random() < 0.8)))
     # a few v2 programs whose first line is indented / with broken indentation (lexdiff only)
